@@ -24,6 +24,12 @@ pub enum Step {
     Reopen(usize),
     /// raw SQL with an expectation decided by the generator (true = must succeed)
     Raw(String, bool),
+    /// a session that writes nothing and stays open while the following steps run
+    BeginIdle(usize),
+    /// the idle session re-reads (its snapshot must be the one it began with) and ends (true = commit, false = rollback)
+    EndIdle(usize, bool),
+    /// n read-only autocommit statements: they only advance the transaction counter
+    Burn(usize),
 }
 
 impl Step {
@@ -40,6 +46,9 @@ impl Step {
             Step::Vacuum => "@vacuum".into(),
             Step::Reopen(c) => format!("@reopen cfg{}", c),
             Step::Raw(s, _) => s.clone(),
+            Step::BeginIdle(i) => format!("@s{} begin (idle)", i),
+            Step::EndIdle(i, c) => format!("@s{} {} (idle)", i, if *c { "commit" } else { "rollback" }),
+            Step::Burn(n) => format!("@burn {} SELECT", n),
         }
     }
 }
@@ -65,6 +74,13 @@ pub struct Profile {
     pub vacuum: bool,
     pub reopen: bool,
     pub configs: Vec<axmosdb::DBConfig>,
+    /// an idle (read-only) session may stay open across other transactions
+    pub bystander: bool,
+    /// DELETE inside a transaction that will be rolled back is generated, but the rows it touched are never the
+    /// target of a later DELETE / UPDATE (that is the open finding `rolled_back_delete_blocks_later_delete`)
+    pub tainting_deletes: bool,
+    /// some histories first advance the transaction counter by 1000-3000 read-only statements
+    pub burn: bool,
 }
 
 impl Profile {
@@ -85,6 +101,9 @@ impl Profile {
             vacuum: false,
             reopen: false,
             configs: vec![default_cfg()],
+            bystander: false,
+            tainting_deletes: false,
+            burn: false,
         }
     }
 }
@@ -323,6 +342,48 @@ impl Exec {
                     self.fail("raw", if *must_succeed { "unexpected-error" } else { "unexpected-success" }, &format!("{} => {}", sql, o.show()));
                 }
             }
+            Step::BeginIdle(i) => match self.db.session() {
+                Ok(sx) => {
+                    self.atoms.insert("hist.idle_session".into());
+                    self.sessions.insert(*i, (sx, self.committed.clone()));
+                    self.transcript.push("begin idle".into());
+                }
+                Err(e) => self.fail("session", "begin-failed", &e),
+            },
+            Step::EndIdle(i, commit) => {
+                if !self.sessions.contains_key(i) {
+                    return;
+                }
+                // the snapshot the idle session began with must still be what it reads
+                self.check_session_view(*i);
+                if self.diverged {
+                    return;
+                }
+                report::count("idle_session_snapshot_checks", 1);
+                let (sx, _) = self.sessions.remove(i).unwrap();
+                let r = if *commit { sx.commit() } else { sx.rollback() };
+                match r {
+                    Ok(()) => {
+                        self.transcript.push("idle end ok".into());
+                        // ending a transaction that wrote nothing changes nothing for anybody
+                        self.check_committed(&format!("after the idle session s{} ended", i));
+                    }
+                    Err(e) => self.fail(if *commit { "commit" } else { "rollback" }, &format!("unexpected-error({})", err_class(&e)), &e),
+                }
+            }
+            Step::Burn(n) => {
+                let tn = self.committed.tables.keys().next().cloned().unwrap_or_default();
+                for _ in 0..*n {
+                    let o = self.db.exec(&format!("SELECT * FROM {} WHERE 1 = 0", tn));
+                    if !o.is_ok() {
+                        self.fail("statement", "burn-select-failed", &o.show());
+                        return;
+                    }
+                }
+                tick();
+                report::count("burned_transactions", *n as i64);
+                self.transcript.push(format!("burn {}", n));
+            }
         }
     }
 
@@ -529,8 +590,25 @@ pub fn gen_history(r: &mut Rng, p: &Profile) -> (Table, Vec<Step>) {
     let mut open: Option<(usize, State, usize, u8)> = None; // (sid, overlay, remaining stmts, end kind 0=commit 1=rollback 2=drop)
     let mut sid = 0usize;
     let mut i = 0;
+    let mut idle: Option<usize> = None;
+    // ids of rows touched by a DELETE that was rolled back (never targeted again: open finding)
+    let mut tainted: BTreeSet<String> = BTreeSet::new();
+    if p.burn && hg.r.chance(1, 16) {
+        steps.push(Step::Burn(*hg.r.pick(&[300usize, 1100, 2500])));
+    }
     while i < p.steps {
         i += 1;
+        if p.bystander && open.is_none() && hg.r.chance(1, 8) {
+            match idle.take() {
+                None => {
+                    sid += 1;
+                    idle = Some(sid);
+                    steps.push(Step::BeginIdle(sid));
+                }
+                Some(s) => steps.push(Step::EndIdle(s, hg.r.chance(2, 3))),
+            }
+            continue;
+        }
         if let Some((s, mut ov, left, end)) = open.take() {
             if left == 0 {
                 match end {
@@ -543,13 +621,21 @@ pub fn gen_history(r: &mut Rng, p: &Profile) -> (Table, Vec<Step>) {
                 }
                 continue;
             }
-            let st = if p.failing && hg.r.chance(1, 8) {
+            let mut st = if p.failing && hg.r.chance(1, 8) {
                 hg.failing_stmt(&ov)
-            } else if end != 0 && !p.delete_in_rolled_back {
+            } else if end != 0 && !p.delete_in_rolled_back && !p.tainting_deletes {
                 hg.insert_only(&ov, &mut next_id)
             } else {
                 hg.dml(&ov, &mut next_id, true)
             };
+            if p.tainting_deletes {
+                let touched = touched_ids(&ov, &st);
+                if touched.iter().any(|t| tainted.contains(t)) {
+                    st = hg.insert_only(&ov, &mut next_id);
+                } else if end != 0 {
+                    tainted.extend(touched);
+                }
+            }
             ov.apply(&st);
             steps.push(Step::In(s, st));
             open = Some((s, ov, left - 1, end));
@@ -578,6 +664,7 @@ pub fn gen_history(r: &mut Rng, p: &Profile) -> (Table, Vec<Step>) {
                 } else {
                     hg.dml(&ov, &mut next_id, true)
                 };
+                let st = if p.tainting_deletes && touched_ids(&ov, &st).iter().any(|t| tainted.contains(t)) { hg.insert_only(&ov, &mut next_id) } else { st };
                 if matches!(ov.apply(&st), MOut::Err(_)) {
                     ok = false;
                 }
@@ -598,7 +685,10 @@ pub fn gen_history(r: &mut Rng, p: &Profile) -> (Table, Vec<Step>) {
             let st = hg.failing_stmt(&model);
             steps.push(Step::Auto(st));
         } else {
-            let st = hg.dml(&model, &mut next_id, false);
+            let mut st = hg.dml(&model, &mut next_id, false);
+            if p.tainting_deletes && touched_ids(&model, &st).iter().any(|t| tainted.contains(t)) {
+                st = hg.insert_only(&model, &mut next_id);
+            }
             model.apply(&st);
             steps.push(Step::Auto(st));
         }
@@ -606,7 +696,30 @@ pub fn gen_history(r: &mut Rng, p: &Profile) -> (Table, Vec<Step>) {
     if let Some((s, _, _, _)) = open {
         steps.push(Step::Rollback(s));
     }
+    if let Some(s) = idle {
+        steps.push(Step::EndIdle(s, true));
+    }
     (t, steps)
+}
+
+/// Keys (first column) of the rows a DELETE / UPDATE removes or changes in `st`.
+fn touched_ids(st: &State, s: &Stmt) -> Vec<String> {
+    if !matches!(s, Stmt::Delete(..) | Stmt::Update(..)) {
+        return vec![];
+    }
+    let mut after = st.clone();
+    after.apply(s);
+    let mut out = vec![];
+    for (name, t) in &st.tables {
+        let Some(t2) = after.tables.get(name) else { continue };
+        let keep: BTreeSet<String> = t2.rows.iter().map(|r| r.iter().map(|v| v.key()).collect::<Vec<_>>().join("|")).collect();
+        for r in &t.rows {
+            if !keep.contains(&r.iter().map(|v| v.key()).collect::<Vec<_>>().join("|")) {
+                out.push(r[0].key());
+            }
+        }
+    }
+    out
 }
 
 /// Run one generated history; returns the transcript (used by the configuration differential).
@@ -656,6 +769,9 @@ pub fn run_profile(p: &Profile, seed: u64, shard: u64, n_hist: usize) {
                 Step::Vacuum => "vacuum",
                 Step::Reopen(_) => "reopen",
                 Step::Raw(..) => "raw",
+                Step::BeginIdle(_) => "begin_idle",
+                Step::EndIdle(..) => "end_idle",
+                Step::Burn(_) => "burn",
             };
             report::count(&format!("steps.{}", k), 1);
         }
